@@ -13,6 +13,7 @@
  *   body <bodyLen> <seed> <off:len:total,…>  coap_block_build_body sequence
  *   srcv <szx> <bodyLen> <seed> <size1|-> <num:m[:len],…>   coap_handle_request_put_block sequence (SINGLE_BODY)
  *   srcv2 <maxBlk> <bodyLen> <seed> <size1|-> <num.m.szx,…>  the same with a block size per step and a server block size limit
+ *   crcv <single> <bodyLen> <seed> <size2|-> <num.m.szx.etag.fmt[.len],…>   coap_handle_response_get_block sequence (client, Block2)
  *
  * Layer B (H-sim, sim_core.h): a real client and a real server context, virtual clock, scripted network:
  *
@@ -351,6 +352,104 @@ static void do_srcv2(unsigned maxBlk, size_t bodyLen, unsigned seed, long size1,
   free(body);
 }
 
+/* crcv <single> <bodyLen> <seed> <size2|-> <num.m.szx.etag.fmt[.len],…> : the CLIENT's Block2 receive path.  Every item is a
+ * 2.05 response (NON, application token) carrying Block2 (num, m, szx), the genuine slice of the body (or its first <len>
+ * bytes), ETag = one byte <etag> (0 = no option), Content-Format <fmt> (0 = no option), Size2 as given.  Printed per item:
+ *   h<off>:<len>:<total>:<hash>  the function returned 0 and the caller would hand rcvd to the response handler
+ *   H<off>:<len>:<total>:<hash>  the response handler was called from inside the function
+ *   e402 / e408                  returned 0 with the code rewritten
+ *   s                            returned 1, handler not called
+ *   +q<num>.<szx>                a request with this Block2 option was transmitted during the call
+ *   /<state>                     - no lg_crcv, I lg_crcv->initial, R<b-e+b-e…> rec_blocks otherwise */
+static char crcv_hbuf[128], crcv_qbuf[128];
+static coap_response_t crcv_on_response(coap_session_t *session, const coap_pdu_t *sent, const coap_pdu_t *rcvd, const coap_mid_t mid) {
+  size_t len = 0, off = 0, total = 0; const uint8_t *data = NULL;
+  (void)session; (void)sent; (void)mid;
+  coap_get_data_large(rcvd, &len, &data, &off, &total);
+  snprintf(crcv_hbuf, sizeof(crcv_hbuf), "H%zu:%zu:%zu:%08x", off, len, total, sim_fnv(data, len));
+  return COAP_RESPONSE_OK;
+}
+static void crcv_on_tx(const sim_dgram_t *d) {
+  coap_pdu_t *p = coap_pdu_init(0, 0, 0, 4096);
+  coap_block_b_t b;
+  size_t n = strlen(crcv_qbuf);
+  if (p && coap_pdu_parse(COAP_PROTO_UDP, d->data, d->len, p) && coap_get_block_b(NULL, p, COAP_OPTION_BLOCK2, &b))
+    snprintf(crcv_qbuf + n, sizeof(crcv_qbuf) - n, "+q%u.%u", b.num, b.szx);
+  else
+    snprintf(crcv_qbuf + n, sizeof(crcv_qbuf) - n, "+q?");
+  if (p) coap_delete_pdu(p);
+}
+
+static void do_crcv(int single, size_t bodyLen, unsigned seed, long size2, char *seq) {
+  static const uint8_t tok[4] = {0xa1, 0xa1, 0xa1, 0xa1};
+  sim_reset();
+  sim_log_enabled = 0;
+  uint8_t *body = mk_body(bodyLen, seed);
+  coap_context_t *ctx = sim_new_context();
+  coap_session_t *s = sim_new_client(ctx, 5683);
+  coap_pdu_t *sent;
+  char *tk, *save = NULL;
+  int first = 1, k = 0;
+  coap_context_set_block_mode(ctx, COAP_BLOCK_USE_LIBCOAP | (single ? COAP_BLOCK_SINGLE_BODY : 0));
+  s->block_mode = ctx->block_mode;
+  coap_register_response_handler(ctx, crcv_on_response);
+  sim_tx_hook = crcv_on_tx;
+  sent = coap_new_pdu(COAP_MESSAGE_NON, COAP_REQUEST_CODE_GET, s);
+  coap_add_token(sent, 4, tok);
+  coap_add_option(sent, COAP_OPTION_URI_PATH, 1, (const uint8_t *)"b");
+  for (tk = strtok_r(seq, ",", &save); tk; tk = strtok_r(NULL, ",", &save), k++) {
+    unsigned num, m, szx, etag, fmt; long len = -1;
+    uint8_t buf[4];
+    coap_pdu_t *rcvd;
+    size_t chunk, off, plen;
+    int ret, nf = sscanf(tk, "%u.%u.%u.%u.%u.%ld", &num, &m, &szx, &etag, &fmt, &len);
+    if (nf < 5 || szx > 6 || m > 1 || etag > 255 || fmt > 255) { printf("bad-op"); break; }
+    chunk = (size_t)1 << (szx + 4);
+    off = (size_t)num * chunk;
+    if (off > bodyLen) off = bodyLen;
+    plen = bodyLen - off < chunk ? bodyLen - off : chunk;
+    if (len >= 0 && (size_t)len <= bodyLen - off) plen = (size_t)len;
+    rcvd = coap_pdu_init(COAP_MESSAGE_NON, COAP_RESPONSE_CODE_CONTENT, (coap_mid_t)(200 + k), 4096);
+    coap_add_token(rcvd, 4, tok);
+    if (etag) { buf[0] = (uint8_t)etag; coap_add_option(rcvd, COAP_OPTION_ETAG, 1, buf); }
+    if (fmt) coap_add_option(rcvd, COAP_OPTION_CONTENT_FORMAT, coap_encode_var_safe(buf, sizeof(buf), fmt), buf);
+    coap_add_option(rcvd, COAP_OPTION_BLOCK2, coap_encode_var_safe(buf, sizeof(buf), (num << 4) | (m << 3) | szx), buf);
+    if (size2 >= 0) coap_add_option(rcvd, COAP_OPTION_SIZE2, coap_encode_var_safe(buf, sizeof(buf), (unsigned)size2), buf);
+    if (plen) coap_add_data(rcvd, plen, body + off);
+    crcv_hbuf[0] = crcv_qbuf[0] = 0;
+    coap_lock_lock(ctx, break);
+    ret = coap_handle_response_get_block(ctx, s, sent, rcvd, COAP_RECURSE_OK);
+    coap_lock_unlock(ctx);
+    if (!first) fputc(',', stdout);
+    first = 0;
+    if (crcv_hbuf[0]) printf("%s", crcv_hbuf);
+    else if (ret == 0) {
+      if (rcvd->code == COAP_RESPONSE_CODE(402)) printf("e402");
+      else if (rcvd->code == COAP_RESPONSE_CODE(408)) printf("e408");
+      else {
+        size_t l = 0, o = 0, t = 0; const uint8_t *d = NULL;
+        coap_get_data_large(rcvd, &l, &d, &o, &t);
+        printf("h%zu:%zu:%zu:%08x", o, l, t, sim_fnv(d, l));
+      }
+    } else
+      printf("s");
+    printf("%s/", crcv_qbuf);
+    if (!s->lg_crcv) printf("-");
+    else if (s->lg_crcv->initial) printf("I");
+    else {
+      const coap_rblock_t *rb = &s->lg_crcv->rec_blocks;
+      printf("R");
+      for (uint32_t i = 0; i < rb->used; i++) printf("%s%u-%u", i ? "+" : "", rb->range[i].begin, rb->range[i].end);
+    }
+    coap_delete_pdu(rcvd);
+  }
+  coap_delete_pdu(sent);
+  sim_tx_hook = NULL;
+  sim_free_all(0);
+  sim_log_enabled = 1;
+  free(body);
+}
+
 #include "block_sim.h"
 
 static void step(char *line) {
@@ -384,6 +483,8 @@ static void step(char *line) {
   } else if (!strcmp(w[0], "srcv2") && n == 6) {
     do_srcv2((unsigned)strtoul(w[1], 0, 10), strtoull(w[2], 0, 10), (unsigned)strtoul(w[3], 0, 10),
              strcmp(w[4], "-") ? atol(w[4]) : -1, w[5]);
+  } else if (!strcmp(w[0], "crcv") && n == 6) {
+    do_crcv(atoi(w[1]), strtoull(w[2], 0, 10), (unsigned)strtoul(w[3], 0, 10), strcmp(w[4], "-") ? atol(w[4]) : -1, w[5]);
   } else if (!strcmp(w[0], "xfer")) {
     do_xfer(n, w);
   } else
